@@ -153,6 +153,7 @@ package parser
 //@   decreases PD(p), 19
 
 //@ func (p *Parser) parseBlockStmt
+//@   ensures always-a-block: result != nil
 //@   ensures well-formed-or-error: len(p.errors) == old(len(p.errors)) ==> result != nil && WFNode(iface(result))
 //@   use@post wfBlockStmtI(stmt)
 //@   loop 0: invariant len(p.errors) == old(len(p.errors)) ==> forall(k, 0, len(stmt.Statements), WFN(stmt.Statements[k]))
@@ -239,9 +240,9 @@ package parser
 //@   requires p.peekToken.Type == token.ELSE
 //@   decreases PD(p), 17
 //@ func (p *Parser) parseSlots
-//@   loop 0: invariant len(p.errors) == old(len(p.errors)) ==> forall(k, 0, len(slots), slots[k] != nil && slots[k].Body != nil && WFNode(iface(slots[k].Body)))
-//@   loop 1: invariant len(p.errors) == old(len(p.errors)) ==> forall(k, 0, len(slots), slots[k] != nil && slots[k].Body != nil && WFNode(iface(slots[k].Body)))
-//@   ensures well-formed-or-error: len(p.errors) == old(len(p.errors)) ==> forall(k, 0, len(result), result[k] != nil && result[k].Body != nil && WFNode(iface(result[k].Body)))
+//@   loop 0: invariant len(p.errors) == old(len(p.errors)) ==> forall(k, 0, len(slots), slots[k] != nil && (slots[k].Body != nil ==> WFNode(iface(slots[k].Body))))
+//@   loop 1: invariant len(p.errors) == old(len(p.errors)) ==> forall(k, 0, len(slots), slots[k] != nil && (slots[k].Body != nil ==> WFNode(iface(slots[k].Body))))
+//@   ensures well-formed-or-error: len(p.errors) == old(len(p.errors)) ==> forall(k, 0, len(result), result[k] != nil && (result[k].Body != nil ==> WFNode(iface(result[k].Body))))
 //@   decreases PD(p), 25
 //@   loop 0: invariant ParInv(p) && PD(p) <= old(PD(p)) && len(p.errors) >= old(len(p.errors))
 //@   loop 0: invariant Grown(p, old(refof(p.errors)), old(refof(p.components)))
